@@ -69,6 +69,8 @@ Inductive op :=
 | OUpd (on_def : bool) (sub : path) (arg : dict)    (* <style or defaults>.<sub>.update(arg) *)
 | OAsg (on_def : bool) (p : path) (v : tree)        (* <style or defaults>.<p> = v *)
 | OSetStyle (arg : dict)                            (* obj.style = {..} *)
+| OSetStyleInst (arg : dict)                        (* src = Class(); src.style.update(arg); obj.style = src.style *)
+| OSetStyleWrong                                    (* obj.style = 5 *)
 | OReset                                            (* magpylib.defaults.reset() *)
 | OResolve (show_kwargs : dict).                    (* style used by show(obj, show_kwargs) *)
 
@@ -97,7 +99,17 @@ Definition step (cls : string) (w : world) (o : op) : world * obs :=
       let '(t, e) := lift_res (w_def w) (assign colors defaults_schema (w_def w) p v) in
       (mkW t (w_obj w), mkObs e (as_dict s (w_obj w)) (Some (as_dict defaults_schema t)))
   | OSetStyle arg =>
-      let '(t, e) := update colors s (w_obj w) arg true false in
+      let '(t, e) := set_style colors style_setter_takes_instance s (w_obj w) (SDict arg) in
+      (mkW (w_def w) t, mkObs e (as_dict s t) None)
+  | OSetStyleInst arg =>
+      match update colors s (match fresh colors s with inl t0 => t0 | inr _ => Leaf None end) arg true false with
+      | (inst, None) =>
+          let '(t, e) := set_style colors style_setter_takes_instance s (w_obj w) (SInst inst) in
+          (mkW (w_def w) t, mkObs e (as_dict s t) None)
+      | (_, Some _) => (w, mkObs (Some EOther) (as_dict s (w_obj w)) None)   (* the source object is not built *)
+      end
+  | OSetStyleWrong =>
+      let '(t, e) := set_style colors style_setter_takes_instance s (w_obj w) SWrong in
       (mkW (w_def w) t, mkObs e (as_dict s t) None)
   | OReset =>
       let '(t, e) := reset colors reset_mode defaults_schema (w_def w) DEFAULTS in
